@@ -315,6 +315,47 @@ def run(index, rep, tier):
                                   "%s computes `%s` with floor division: rates, times and probabilities are real numbers, and the quotient is silently rounded down - a waiting time drawn with rate floor(n / birth_rate) instead of n / birth_rate has the wrong distribution for every non-integer ratio and divides by zero when the ratio is below one" % (fi.qualname, (norm(x) if isinstance(x, ast.BinOp) else norm_stmt(x))[:60]))
         rep.floor("R18.12", "divisions in the simulation code", 20, nd)
 
+    # ---- R18.13 what a call parks on the caller's tree does not leak into the next call
+    with rep.section("R18.13"):
+        rep.rule("R18.13", "what a call parks on the caller's tree does not leak into the next call: where a coalescent simulator accumulates into a node attribute that it creates on demand (`if not hasattr(nd, 'a'): nd.a = []` ... `nd.a.extend(...)`, or try-append / except-assign) it first clears that attribute on every node of the working tree - the attribute survives on a decorated species tree (and is deep-copied into the working copy of an undecorated one), so a second call would otherwise start with the lineages of the first and return a tree of a different size for the same generator state")
+        n13 = 0
+        for fi in [f for f in index.functions_in_module("dendropy.model.coalescent") if f.cls is None] + [f for f in index.functions_in_module("dendropy.simulate.treesim") if f.cls is None]:
+            lazy = {}
+            for st in walk_no_nested(fi.node):
+                if isinstance(st, ast.If):
+                    t = st.test
+                    neg = isinstance(t, ast.UnaryOp) and isinstance(t.op, ast.Not)
+                    c = t.operand if neg else t
+                    if isinstance(c, ast.Call) and call_name(c) == "hasattr" and len(c.args) == 2 and isinstance(c.args[1], ast.Constant):
+                        a = c.args[1].value
+                        body = st.body if neg else st.orelse
+                        if any(isinstance(x, ast.Assign) and any(isinstance(tg, ast.Attribute) and tg.attr == a for tg in x.targets) and isinstance(x.value, (ast.List, ast.Dict, ast.Set)) for b in body for x in ast.walk(b)):
+                            lazy.setdefault(a, st)
+                if isinstance(st, ast.Try):
+                    for b in st.body:
+                        for x in ast.walk(b):
+                            if isinstance(x, ast.Call) and isinstance(x.func, ast.Attribute) and x.func.attr in ("append", "extend", "add") and isinstance(x.func.value, ast.Attribute):
+                                a = x.func.value.attr
+                                if any(isinstance(y, ast.Assign) and any(isinstance(tg, ast.Attribute) and tg.attr == a for tg in y.targets) for h in st.handlers for y in ast.walk(h)):
+                                    lazy.setdefault(a, st)
+            for a, st in lazy.items():
+                grows = [x for x in ast.walk(fi.node) if isinstance(x, ast.Call) and isinstance(x.func, ast.Attribute) and x.func.attr in ("append", "extend", "add", "update") and isinstance(x.func.value, ast.Attribute) and x.func.value.attr == a]
+                if not grows:
+                    continue
+                n13 += 1
+                first = min([st.lineno] + [x.lineno for x in grows])
+                clears = []
+                for lp in walk_no_nested(fi.node):
+                    if isinstance(lp, ast.For) and lp.lineno < first:
+                        for x in ast.walk(lp):
+                            if isinstance(x, ast.Delete) and any(isinstance(tg, ast.Attribute) and tg.attr == a for tg in x.targets):
+                                clears.append(x)
+                            elif isinstance(x, ast.Call) and call_name(x) == "delattr" and len(x.args) == 2 and const_value(x.args[1], None) == a:
+                                clears.append(x)
+                rep.check(bool(clears), "R18.13", fi.qualname, "`%s` accumulated on the nodes without being cleared first" % a, fn_where(fi, st), "%s clears `%s` on the working tree before accumulating into it" % (fi.name, a),
+                          "%s creates `<node>.%s` only when it is missing and then appends to it, and never removes what an earlier call left there: on a species tree that was decorated before (or on the working copy, which deep-copies the decoration) the lists already hold the lineages of the previous run, so the second call returns a gene tree with three times the leaves and corrupts the first - for equal generator states the two calls must return identical trees" % (fi.qualname, a))
+        rep.floor("R18.13", "node attributes accumulated on demand by the coalescent simulators", 1, n13)
+
 
 def _distinct_labels_rule(index, rep):
     """R18.3: `require_taxon(label=L)` returns an *existing* taxon when the label is taken, so a
